@@ -301,7 +301,10 @@ impl<'a, 'b> G<'a, 'b> {
         let k = self.t.pick(46);
         match k {
             0..=7 => self.simple(),
-            8 if !ctx.no_trans => "_".into(),
+            // A `_` nested inside another action can resolve to the very cell that contains it when
+            // a layer is in the stack twice (known finding F30): plausible configs use `_` as a
+            // plain cell only.
+            8 if !ctx.no_trans && (self.p == Profile::Boundary || ctx.depth == 0) => "_".into(),
             9 => "use-defsrc".into(),
             10 => format!("(layer-switch {})", self.layer_name()),
             11 | 12 if ctx.waiting_ok && !ctx.no_taphold => {
@@ -347,7 +350,11 @@ impl<'a, 'b> G<'a, 'b> {
                     "macro-repeat-cancel-on-press", "macro-release-cancel-and-cancel-on-press",
                     "macro-repeat-release-cancel-and-cancel-on-press",
                 ];
-                let vi = self.t.pick(names.len());
+                let mut vi = self.t.pick(names.len());
+                if self.p == Profile::Plausible && self.has_chords_v2 && names[vi].contains("repeat") {
+                    // known finding F32 (repeating macro + chords v2 never stops): excluded by construction
+                    vi = 0;
+                }
                 if names[vi].contains("repeat") {
                     self.feat("macro-repeat");
                 }
@@ -481,7 +488,15 @@ impl<'a, 'b> G<'a, 'b> {
                     _ => format!("(unmod ({}) {})", MOD_KEYS[self.t.pick(MOD_KEYS.len())], self.out_key()),
                 }
             }
-            36 => (*self.t.choose(&["rpt", "rpt-any"])).to_string(),
+            36 => {
+                // `rpt-any` nested in another action can repeat the action that contains it
+                // (known findings F25 / F29): plausible configs use it as a plain layer key only
+                if self.p == Profile::Plausible && (ctx.depth > 0 || ctx.in_vkey_def) {
+                    "rpt".to_string()
+                } else {
+                    (*self.t.choose(&["rpt", "rpt-any"])).to_string()
+                }
+            }
             37 if ctx.alias_ok && !self.aliases.is_empty() => {
                 self.feat("alias-ref");
                 format!("@{}", self.aliases[self.t.pick(self.aliases.len())])
